@@ -9,5 +9,27 @@ for m in sorted(glob.glob('/verif/seeded/*/meta.json')):
     d = json.load(open(m))
     rows.append("| %s | %s | %s | %s | %s |" % (os.path.basename(os.path.dirname(m)), d.get('property',''), d.get('summary','').replace('|','/'), d.get('needs','').replace('|','/'), d.get('caught_by','').replace('|','/')))
 table = "| seeded change | property | change | needs, to manifest | caught by |\n|---|---|---|---|---|\n" + "\n".join(rows) if rows else "(no seeded changes recorded yet)"
-open('/verif/DESIGN.md','w').write(head + tail.replace('@SEEDED_TABLE@', table))
+# Appendix A: every rule the checks register, read from the evidence of the last run (instances, floor) and from the
+# checker's source (which rules are adoptions of another property's rule, with or without a filter)
+import re
+adopt = {}
+for f in sorted(glob.glob('/verif/zogcheck/*.go')):
+    src = open(f).read()
+    for m in re.finditer(r'shareRule\(P, r, check(C\d\d), "([^"]+)", (nil|func)[^\n]*?"(C\d\d/[^"]+)", \d+\)', src):
+        adopt.setdefault(m.group(4), []).append(m.group(2) + (" (filtered)" if m.group(3) == "func" else ""))
+    for m in re.finditer(r'shareRule\(P, r, check(C\d\d), "([^"]+)", func\(o Obligation\) bool \{\n(?:[^\n]*\n){1,3}?\t\}, "(C\d\d/[^"]+)", \d+\)', src):
+        adopt.setdefault(m.group(3), []).append(m.group(2) + " (filtered)")
+arows = []
+for f in sorted(glob.glob('/verif/evidence/C*.json')):
+    e = json.load(open(f))
+    for x in sorted(e['coverage'].get('rule_instances', []), key=lambda x: x['rule']):
+        src = ", ".join(sorted(set(adopt.get(x['rule'], [])))) or "own"
+        arows.append("| `%s` | %s | %s | %s |" % (x['rule'], x['instances'], x.get('floor', ''), src))
+appendix = ("\n\n## Appendix A. Every rule, as registered by the last run\n\n"
+            "Generated from `evidence/*.json` (instances on the pinned tree, vacuity floor; floor 0 = none) and from the checker's "
+            "source (`shareRule`: the rule is another property's rule adopted under this name, the necessary condition being common "
+            "to both statements; \"filtered\" = only the obligations about the constructs relevant here). Section 4 describes the "
+            "rules in prose; this table is the complete list.\n\n"
+            "| rule | instances | floor | own / adopted from |\n|---|---|---|---|\n" + "\n".join(arows) + "\n")
+open('/verif/DESIGN.md','w').write(head + tail.replace('@SEEDED_TABLE@', table) + appendix)
 print("DESIGN.md written,", len(rows), "seeded rows")
